@@ -168,6 +168,88 @@ def cached_interrupt_part(ctx):
     return n
 
 
+def shared_handler_part(ctx):
+    """ONE handler function reused for several interrupts of a graph (different node names, input renames, output names, some
+    with an emit signal): the conversation pauses at each unanswered interrupt in dependency order under ITS OWN key, a supplied
+    response passes exactly that interrupt, and the completed run equals the run whose handler answers by itself."""
+    import asyncio
+    from hypergraph import AsyncRunner, Graph
+    from hypergraph.nodes import FunctionNode, InterruptNode
+    rng = ctx.rng
+    n = 0
+    for _ in range(ctx.n(25, 200)):
+        k = rng.randint(2, 3)
+        chain = rng.random() < 0.6           # each question depends on the previous answer / all questions depend on the topic only
+        emits = [rng.random() < 0.3 for _ in range(k)]
+        two_runners = rng.random() < 0.5
+
+        def build(answers):
+            def ask(prompt):
+                return answers.get(prompt)
+            nodes = []
+            for i in range(k):
+                src = "topic" if (i == 0 or not chain) else f"ans{i - 1}"
+
+                def mk_factory(i):
+                    def mk(src_value):
+                        return f"q{i}({src_value})"
+                    return mk
+                nodes.append(FunctionNode(mk_factory(i), name=f"mk{i}", output_name=f"p{i}").with_inputs(src_value=src))
+                kw = {"emit": f"sig{i}"} if emits[i] else {}
+                nodes.append(InterruptNode(ask, name=f"ask{i}", output_name=f"ans{i}", **kw).with_inputs(prompt=f"p{i}"))
+
+            src_fin = "def fin(" + ", ".join(f"ans{i}" for i in range(k)) + "):\n    return (" + ", ".join(f"ans{i}" for i in range(k)) + ",)\n"
+            ns = {}
+            exec(src_fin, ns)  # noqa: S102
+            nodes.append(FunctionNode(ns["fin"], name="fin", output_name="final"))
+            order = list(range(len(nodes)))
+            rng.shuffle(order)
+            return Graph([nodes[j] for j in order])
+        G = build({})
+        runner = AsyncRunner()
+        vals = {"topic": rng.randint(0, 5)}
+        given = {}
+        case = {"family": "shared_handler", "interrupts": k, "chain": chain, "emits": emits}
+        ok = True
+        for step in range(k + 1):
+            try:
+                r = asyncio.run((runner if not two_runners else AsyncRunner()).run(G, dict(vals)))
+            except Exception as e:  # noqa: BLE001
+                ctx.violation("oracle", f"conversation step {step} raised {type(e).__name__}: {e}", case=case)
+                ok = False
+                break
+            n += 1
+            if step < k:
+                if chain:
+                    want_nodes = {f"ask{step}"}
+                else:
+                    want_nodes = {f"ask{i}" for i in range(k) if f"ans{i}" not in vals}
+                if r.pause is None or r.pause.node_name not in want_nodes:
+                    ctx.violation("oracle", f"step {step}: expected a pause at one of {sorted(want_nodes)}, got status {r.status.value} "
+                                  f"pause {r.pause and r.pause.node_name}", case=case)
+                    ok = False
+                    break
+                i = int(r.pause.node_name[3:])
+                if r.pause.response_key != f"ans{i}":
+                    ctx.violation("oracle", f"step {step}: the pause at {r.pause.node_name} asks for the answer under {r.pause.response_key!r}, its output is 'ans{i}'", case=case)
+                    ok = False
+                    break
+                if "final" in r.values:
+                    ctx.violation("oracle", f"step {step}: 'final' was computed although {r.pause.node_name} is unanswered", case=case)
+                resp = rng.choice([f"A{i}", 0, ""])
+                given[i] = resp
+                vals[r.pause.response_key] = resp
+            else:
+                if r.status.value != "completed":
+                    ctx.violation("oracle", f"all {k} interrupts answered, yet the run ended {r.status.value} (pause {r.pause and r.pause.node_name})", case=case)
+                    ok = False
+                    break
+                want_final = tuple(given[i] for i in range(k))
+                if r.values.get("final") != want_final:
+                    ctx.violation("oracle", f"the answered conversation ended with final={r.values.get('final')!r}, the responses were {want_final!r}", case=case)
+    return n
+
+
 def run(ctx):
     rng = ctx.rng
     cases, meta = [], []
@@ -288,6 +370,7 @@ def run(ctx):
 
     n_model_programs = chain_program_part(ctx)
     n_model_programs += cached_interrupt_part(ctx)
+    n_model_programs += shared_handler_part(ctx)
     obs_all, res = engine.run_cases(ctx, "C14", cases, extra=extra)
     # history-level oracle: one interrupt at a time, in dependency order; final result == handlers answering themselves
     for h in hist_groups:
@@ -314,6 +397,7 @@ def run(ctx):
         rule="random DAGs with 1-3 single-output nodes turned into interrupts (handler pauses; 20% answer themselves), 25% with the "
              "interrupt inside a nested graph; each driven through its complete pause/resume history on AsyncRunner under adversarial "
              "completion orders; plus (oracle only) chains with a cache=True interrupt on a caching runner, histories of 2-5 runs answered with "
-             "different responses for equal inputs, each compared with the uncached run; non-trivial = a run that paused",
+             "different responses for equal inputs, each compared with the uncached run, and conversations over 2-3 interrupts sharing ONE handler "
+             "function; non-trivial = a run that paused",
         distribution=dist, samples=[{"graph": cases[0][0]["nodes"], "run": cases[0][1]}] if cases else [],
         traces_validated_against_impl=len(obs_all), disagreements_checked=res["n"])
